@@ -148,6 +148,9 @@ def check(ck: Checker) -> None:
     from . import round7 as _r7
 
     _r7.from_list_splits_raw_relpath(ck, "C19.digest")
+    from . import round11 as _r11
+
+    _r11.canonical_json_encoding(ck, "C19.digest")
 
 
 
